@@ -86,7 +86,7 @@ def project(cs, evs, maxentries):
                                  "srcsame": b.get("hsrc") == e.get("hsrc") or cmd.startswith("accept") or cmd in RECORD | REPLAY}, e))
                     mini_open = None
                     continue
-                if cmd in walk or cmd in search:
+                if (cmd in walk or cmd in search) and cmd not in RECORD | REPLAY:
                     pre, post = b["line"], e["line"]
                     single = 10 not in pre
                     N = len((b.get("hsrc") or {}).get("main", []))
